@@ -284,7 +284,8 @@ def owns(prop, ev, tag):
     if tag == "io":
         return prop == "C19"
     if prop == "C19":
-        return "thread" in ev            # any wrong result on a thread
+        # the same call gave different results on different threads / after different histories
+        return tag == "nondeterministic"
     if prop == "C01":
         return e in DECODE_EVENTS and (tag in DIED or tag == "empty-errors")
     if prop == "C02":
@@ -327,7 +328,10 @@ def owns(prop, ev, tag):
     if prop == "C13":
         return e == "reveal" and ev.get("v", {}).get("k") == "Hidden"
     if prop == "C14":
-        return e == "decode_opts"
+        # only what C14 states: relations between the results under different option sets, judged on the
+        # implementation's own results (a value that is wrong under every option set is C05's business)
+        return e == "decode_opts" and (tag in ("opts-monotone", "default-entry", "version-exact", "reserved-exact", "unused-exact")
+                                       or tag in DIED)
     if prop == "C15":
         if e == "decode_avps":
             return tag in ("value",) or tag in DIED
